@@ -23,6 +23,10 @@ type InterfaceMethod struct {
 	Name    string
 	Inputs  []InterfaceType
 	Outputs []InterfaceType
+
+	// id is go/types' identifier of the method ("" in hand-built models): the name, qualified by the
+	// package path if the name is not exported - an unexported method of another package is a different method
+	id string
 }
 
 // InterfaceType
@@ -134,6 +138,7 @@ func extractMethodsFromInterface(iface *types.Interface) []InterfaceMethod {
 			Name:    method.Name(),
 			Inputs:  extractTypesFromTuple(sig.Params(), sig.Variadic()),
 			Outputs: extractTypesFromTuple(sig.Results(), false),
+			id:      method.Id(),
 		})
 	}
 
